@@ -5,9 +5,11 @@ package main
 // caching: per-connection key tracking (OPTIN through DoCache, OPTOUT for keys read by
 // commands and scripts, NOLOOP) and invalidation pushes delivered through the
 // ClientOption.OnInvalidations callback whenever a tracked key is written, deleted or
-// expires. There is no Lua interpreter: each script is recognised by the SHA-1 of its text
-// (the texts pinned in Rv/Props/C34, C39, C40) and executed by a Go re-implementation that
-// is validated against the Lean script models by the `s.*` lines of every suite.
+// expires. Each script is recognised by the SHA-1 of its text (the texts pinned in
+// Rv/Props/C34, C39, C40) and executed by a Go re-implementation that is validated against
+// the Lean script models by the `s.*` lines of every suite. A script whose text is not one
+// of the pinned ones is executed by the mini Lua interpreter harness/luamini on the same
+// server state (see luamini.go).
 
 import (
 	"context"
@@ -18,6 +20,7 @@ import (
 	"strconv"
 	"strings"
 	"sync"
+	"sync/atomic"
 	"time"
 
 	"github.com/redis/rueidis"
@@ -643,6 +646,7 @@ func (f *fakeServer) exec1(cl *fakeClient, ctx context.Context, cmd []string, ca
 			sum := sha1.Sum([]byte(cmd[1]))
 			sha = hex.EncodeToString(sum[:])
 			f.loaded[sha] = true
+			scriptTexts.Store(sha, cmd[1])
 			f.hits["eval"]++
 		}
 		nk, err := strconv.Atoi(cmd[2])
@@ -651,7 +655,13 @@ func (f *fakeServer) exec1(cl *fakeClient, ctx context.Context, cmd []string, ca
 		}
 		name, ok := scriptBySha[sha]
 		if !ok {
-			return record("unknown-script:"+sha, cmd[3:3+nk], cmd[3+nk:], rErr("ERR fake: script text is not one of the pinned texts"))
+			// not one of the pinned texts: interpreted; logged under the name of the known script it resembles
+			text, _ := scriptTexts.Load(sha)
+			label := labelOf(sha, text.(string))
+			luaUnknownRuns.Add(1)
+			cnt, _ := luaUnknownAs.LoadOrStore(label, new(atomic.Int64))
+			cnt.(*atomic.Int64).Add(1)
+			return record(label, cmd[3:3+nk], cmd[3+nk:], f.runLua(cl, sha, text.(string), cmd[3:3+nk], cmd[3+nk:]))
 		}
 		return record(name, cmd[3:3+nk], cmd[3+nk:], f.runScript(cl, name, cmd[3:3+nk], cmd[3+nk:]))
 	case "SCRIPT":
@@ -659,6 +669,7 @@ func (f *fakeServer) exec1(cl *fakeClient, ctx context.Context, cmd []string, ca
 			sum := sha1.Sum([]byte(cmd[2]))
 			sha := hex.EncodeToString(sum[:])
 			f.loaded[sha] = true
+			scriptTexts.Store(sha, cmd[2])
 			return rStr(sha)
 		}
 	case "GET":
